@@ -6,7 +6,7 @@ from harness import interp_common as ic
 from harness.interp_gen import Gen
 
 PROP = 'C05'
-LEAN_MODULES = ['Glom.Props.C05', 'Glom.Props.C05Spine', 'Glom.Props.C05Repr']
+LEAN_MODULES = ['Glom.Props.C05', 'Glom.Props.C05Spine', 'Glom.Props.C05Repr', 'Glom.Props.C05Text']
 FACT_FILES = ['C05Facts']
 READY = True
 RULE = ('failing evaluations only: a random target (short, long (lists of 40+ items, 300-char strings) or non-ASCII '
